@@ -310,6 +310,59 @@ ImplLookupPinned(c) == ImplLookupGen(c, TRUE, "none")
 ImplCmdValues(c) == LET s == ImplCmdInsts(c, "none") IN [i \in 1..Len(s) |-> s[i].value]
 
 (***************************************************************************)
+(* Impl: HISTORY.  pyanalyze builds ONE Options object per run             *)
+(* (name_check_visitor.py:5855) and asks it for every option of every      *)
+(* module (Options.for_module shares `options`, options.py:288).  The      *)
+(* Options object is modelled as state: for every option the sorted list   *)
+(* of stored instances (Options.options, options.py:282).  A case with a   *)
+(* history carries c.lookups, a sequence of [kind, q]: the files and the   *)
+(* command line of the case say the same thing (c.files[i].*.val, c.cmd)   *)
+(* about one option of every kind that is looked up, and the lookups are   *)
+(* performed in order on the one object.                                   *)
+(***************************************************************************)
+HistDefault(kind) ==
+    CASE kind = "flag" -> <<"F">> [] kind = "int" -> <<"d">> [] kind = "list" -> <<"dflt">>
+      [] kind \in PathKinds -> << >> [] kind = "bool" -> <<"T">>
+HistView(c, lk) == [c EXCEPT !.kind = lk.kind, !.q = lk.q, !.default = HistDefault(lk.kind)]
+LookupKinds(c) == {c.lookups[i].kind : i \in 1..Len(c.lookups)}
+
+\* Options.from_option_list (options.py:279-286): per option name, the instances sorted by sort_key
+ImplStoreOf(c, k) ==
+    LET v == HistView(c, [kind |-> k, q |-> << >>])
+    IN StableSort(ImplCmdInsts(v, "none") \o ImplFileInsts(v, 1, FALSE, "none"))
+ImplStore(c) == [k \in LookupKinds(c) |-> ImplStoreOf(c, k)]
+
+\* index of the first stored instance that is applicable and non-empty (0 if none)
+FirstNonEmptyApplicable(insts, q) ==
+    LET I == {i \in 1..Len(insts) : IsPrefix(insts[i].mod, q) /\ insts[i].value # << >>}
+    IN IF I = {} THEN 0 ELSE CHOOSE i \in I : \A j \in I : i <= j
+
+\* One lookup on the stored instances of one option.  Options._get_value_for_no_default (options.py:297)
+\* builds a NEW list [*stored, cls(default)]; get_value_from_instances (options.py:101 / :167) reads it
+\* and, for concatenated options, accumulates into a fresh `values = []`: nothing is written back, the
+\* stored instances are the same after the lookup.
+\* bug = "alias_first" (sensitivity only): the concatenation accumulates IN the list stored on the first
+\* applicable non-empty instance, so that instance's value becomes the whole concatenation.
+ImplLookupStep(insts, kind, q, bug) ==
+    LET all == insts \o << Inst(HistDefault(kind), << >>, FALSE, 0) >>
+        value == IF IsConcat(kind) THEN ConcatApplicable(all, q) ELSE FirstApplicable(all, q, HistDefault(kind))
+        j == FirstNonEmptyApplicable(insts, q)
+    IN [value |-> value,
+        insts |-> IF bug = "alias_first" /\ IsConcat(kind) /\ j # 0
+                  THEN [insts EXCEPT ![j] = [@ EXCEPT !.value = value]] ELSE insts]
+
+\* the sequence of lookups threaded through the Options state: [vals, store]
+RECURSIVE ImplRun(_, _, _, _)
+ImplRun(c, store, i, bug) ==
+    IF i > Len(c.lookups) THEN [vals |-> << >>, store |-> store]
+    ELSE LET lk == c.lookups[i]
+             r == ImplLookupStep(store[lk.kind], lk.kind, lk.q, bug)
+             rest == ImplRun(c, [store EXCEPT ![lk.kind] = r.insts], i + 1, bug)
+         IN [vals |-> <<r.value>> \o rest.vals, store |-> rest.store]
+
+ImplRunValues(c) == ImplRun(c, ImplStore(c), 1, "none").vals
+
+(***************************************************************************)
 (* Ref: the documented precedence, written without reference to instances, *)
 (* priorities, sorting, namespaces or kwargs: a list of "statements" about *)
 (* the option in decreasing precedence; the first one that says something  *)
@@ -404,6 +457,10 @@ RefLookup(c) ==
     ELSE IF IsConcat(c.kind) THEN ConcatSaid(RefStatements(c), c.default)
     ELSE FirstSaid(RefStatements(c), c.default)
 
+\* HISTORY: the effective value "of every option for a module" is a function of the configuration
+\* and the module -- whatever was looked up before on the same Options object, and however often.
+RefRunValues(c) == [i \in 1..Len(c.lookups) |-> RefLookup(HistView(c, c.lookups[i]))]
+
 (***************************************************************************)
 (* Bounded case space enumerated by TLC                                    *)
 (***************************************************************************)
@@ -414,7 +471,9 @@ CONSTANTS
     WithBad,     \* TRUE: also enumerate malformed configurations
     Routes,      \* subset of {"inst", "kwargs", "argv"}
     Layouts,     \* subset of {"flat", "nested"}
-    Slim         \* TRUE: every file is top + override a, extend_config first (the command-line slice)
+    Slim,        \* TRUE: every file is top + override a, extend_config first (the command-line slice)
+    HistKinds,   \* option kinds looked up in histories ({} = no history slice)
+    MaxLookups   \* length of a history
 
 DefaultsOf(kind) ==
     CASE kind = "bool" -> {<<"T">>, <<"F">>}
@@ -457,7 +516,7 @@ vars == <<case, stage, n>>
 
 Blank == [kind |-> "bool", files |-> << >>, cmd |-> "none", default |-> <<"T">>, q |-> << >>,
           bad |-> "none", badfile |-> 0, badloc |-> "top",
-          route |-> "inst", argv |-> << >>, cfgsrc |-> "arg", layout |-> "flat"]
+          route |-> "inst", argv |-> << >>, cfgsrc |-> "arg", layout |-> "flat", lookups |-> << >>]
 
 Init == case = Blank /\ stage = "kind" /\ n = 0
 
@@ -502,7 +561,20 @@ ChooseBad ==
                                  !.argv = IF r = "argv" THEN CanonArgv(case.kind, cm) ELSE << >>]
     /\ stage' = "done" /\ UNCHANGED n
 
-Next == ChooseKind \/ AddFile \/ ChooseQuery \/ ChooseBad
+\* HISTORY slice: the Options object is built (stage "hist"), then one Lookup(option kind, module) per
+\* step; every state with stage = "hist" is a case (every prefix of a history is a history).
+BuildOptions ==
+    /\ HistKinds # {} /\ stage = "files" /\ Len(case.files) = n
+    /\ \E c \in SecVals(case.kind) : case' = [case EXCEPT !.cmd = c]
+    /\ stage' = "hist" /\ UNCHANGED n
+
+Lookup ==
+    /\ stage = "hist" /\ Len(case.lookups) < MaxLookups
+    /\ \E k \in HistKinds, i \in 1..Len(Paths) :
+         case' = [case EXCEPT !.lookups = Append(@, [kind |-> k, q |-> Paths[i]])]
+    /\ UNCHANGED <<stage, n>>
+
+Next == ChooseKind \/ AddFile \/ ChooseQuery \/ ChooseBad \/ BuildOptions \/ Lookup
 
 (***************************************************************************)
 (* Properties on the model                                                 *)
@@ -526,4 +598,16 @@ ArgvFirstWinsFollowsDocs == stage = "done" => ImplLookupGen(case, FALSE, "argv_f
 AllBeatsSingleFollowsDocs == stage = "done" => ImplLookupGen(case, FALSE, "all_beats_single") = RefLookup(case)
 \* and a visitor class's own config_filename being ignored.
 NoClassConfigFollowsDocs == stage = "done" => ImplLookupGen(case, FALSE, "no_class_config") = RefLookup(case)
+
+\* HISTORY: every lookup of every history yields the documented value ...
+HistoryFollowsDocs == stage = "hist" => ImplRunValues(case) = RefRunValues(case)
+\* ... and lookups do not change the Options object.
+LookupsArePure == stage = "hist" => ImplRun(case, ImplStore(case), 1, "none").store = ImplStore(case)
+\* both at once (one evaluation of the run per state)
+HistoryHolds ==
+    stage = "hist" => LET s0 == ImplStore(case)
+                          r == ImplRun(case, s0, 1, "none")
+                      IN r.vals = RefRunValues(case) /\ r.store = s0
+\* Sensitivity (must be VIOLATED): a concatenating lookup that accumulates in the stored list.
+AliasFirstFollowsDocs == stage = "hist" => ImplRun(case, ImplStore(case), 1, "alias_first").vals = RefRunValues(case)
 =============================================================================
